@@ -20,7 +20,7 @@ type op = ON of int * int * int list | OR of int list | OI of int * bool | OS of
 (* ON (peer, off, ids); the script time of op k is optime.(k) *)
 type ent =
   | A of int * int * int | N of int * int * int list * string | P of int * int list * int list
-  | R of int * int | Q of int * int * int list | I of int * int * bool | S of int * bool | E of int
+  | R of int * int | RS of int * int | Q of int * int * int list | I of int * int * bool | S of int * bool | E of int
 
 let ids_of s = if s = "-" || s = "" then [] else List.map int_of_string (String.split_on_char ',' s)
 let tok_ids l = if l = [] then "-" else String.concat "," (List.map string_of_int l)
@@ -43,6 +43,7 @@ let parse_ent tok = match String.split_on_char ':' tok with
   | ["n"; t; k; ids; s] -> N (int_of_string t, int_of_string k, ids_of ids, s)
   | ["p"; t; all; ids] -> P (int_of_string t, ids_of all, ids_of ids)
   | ["r"; t; k] -> R (int_of_string t, int_of_string k)
+  | ["rs"; t; k] -> RS (int_of_string t, int_of_string k)
   | ["q"; t; peer; ids] -> Q (int_of_string t, int_of_string peer, ids_of ids)
   | ["i"; t; id; b] -> I (int_of_string t, int_of_string id, b = "1")
   | ["s"; t; b] -> S (int_of_string t, b = "1")
@@ -54,11 +55,16 @@ let eval_fetcher inp obs =
   let hl, mb, ops, optime = (match groups with
     | [h] :: r -> int_of_string h, 99, parse_ops r, Array.of_list (List.map op_time r)
     | [h; m] :: r -> int_of_string h, int_of_string m, parse_ops r, Array.of_list (List.map op_time r)
+    | [h; m; _; _] :: r -> int_of_string h, int_of_string m, parse_ops r, Array.of_list (List.map op_time r)
     | _ -> failwith "bad header") in
   (* the j-th batch of an announcement: mb real ids each *)
   let rec chunks l = if l = [] then [] else
     let rec take n l = if n = 0 then [], l else match l with [] -> [], [] | x :: r -> let a, b = take (n - 1) r in x :: a, b in
     let a, b = take mb l in a :: chunks b in
+  let rec rchunks l = if l = [] then [] else
+    let rec take n l = if n = 0 then [], l else match l with [] -> [], [] | x :: r -> let a, b = take (n - 1) r in x :: a, b in
+    let a, b = take (mb + 1) l in a :: rchunks b in
+  let in_flight = ref false in
   let seen_chunks = Hashtbl.create 8 in
   let late, obs = (match obs with "LATE" :: r -> true, r | _ -> false, obs) in
   let ents = Array.of_list (List.map parse_ent obs) in
@@ -78,7 +84,7 @@ let eval_fetcher inp obs =
   (* spec log pieces: per obs index, the entries to emit (requests attributed to events go there) *)
   let slog = Array.make n [] in
   let next_loop_event i = (* next N/P/R entry after i *)
-    let rec go j = if j >= n then None else match ents.(j) with N _ | P _ | R _ -> Some ents.(j) | _ -> go (j + 1) in go (i + 1) in
+    let rec go j = if j >= n then None else match ents.(j) with N _ | P _ | R _ | RS _ -> Some ents.(j) | _ -> go (j + 1) in go (i + 1) in
   let next_pass_time i =
     let rec go j = if j >= n then None else match ents.(j) with P (t, _, _) -> Some t | _ -> go (j + 1) in go (i + 1) in
   let do_step t ev = let (s', rq) = step true cfg !st (zz t) ev in st := s'; rq in
@@ -118,6 +124,7 @@ let eval_fetcher inp obs =
   Array.iteri (fun i e ->
     match e with
     | A (_, k, at) -> Hashtbl.replace atimes k at; out.(i) <- toks.(i)
+    | RS (_, _) -> in_flight := true; out.(i) <- toks.(i)
     | I (t, id, b) -> out.(i) <- toks.(i); if not b then slog.(i) <- [LUninterest (zz t, nn id)]
     | S (t, b) -> out.(i) <- toks.(i); if not b then slog.(i) <- [LUnsuspend (zz t)]
     | N (t, k, ints, s) ->
@@ -144,11 +151,17 @@ let eval_fetcher inp obs =
        | _ -> out.(i) <- "n:!not-a-notification")
     | R (t, k) ->
       (match ops.(k) with
-       | OR ids -> ignore (do_step t (EReceived (List.map nn ids)));
+       | OR ids ->
+         (* NotifyReceived hands the report over in batches of MaxBatch ids: one loop event each *)
+         in_flight := false;
+         List.iter (fun ch -> ignore (do_step t (EReceived (List.map nn ch)))) (rchunks ids);
          slog.(i) <- [LRecv (zz t, List.map nn ids)]; out.(i) <- toks.(i)
        | _ -> out.(i) <- "r:!not-a-received")
     | P (t, all, ints) ->
       slog.(i) <- [LPass (zz t, List.map nn all, List.map nn ints)];
+      (* a pass taken while a split received report is still being handed over: how many of its batches
+         the loop had taken is not observable *)
+      if !in_flight then indet := true;
       (* the loop reads the clock a little before the harness stamps the callback, so the real
          due time may be slightly earlier than the model's *)
       (match timer_due !st with
@@ -213,7 +226,7 @@ let eval_fetcher inp obs =
     let t = optime.(k) * unit_ms in
     match o with
     | ON (peer, off, ids) -> List.map (fun ch -> (zz t, FNotify (nn peer, List.map nn ch, zz (t - off * unit_ms)))) (chunks ids)
-    | OR ids -> [(zz t, FReceived (List.map nn ids))]
+    | OR ids -> List.map (fun ch -> (zz t, FReceived (List.map nn ch))) (rchunks ids)
     | OI (id, b) -> [(zz t, FInterest (nn id, b))]
     | OS b -> [(zz t, FSuspend b)]
     | OE -> [(zz t, FEnd)]) ops)) in
